@@ -16,7 +16,7 @@ num: /[0-9]+/
 
 %input Root;
 
-%interface Expr;
+%interface Expr, Other;
 
 Root -> Root : Expr ;
 Expr -> Expr :
